@@ -421,6 +421,30 @@ def _hop_family_one(acc, rng, nsub, N, sizes, addrs, sens):
             sens.append((prev, 0))
         acc.count("hop_clause_spokes_and_hub")
         return _hop_family_build(acc, rng, nsub, N, sizes, addrs, sens, topo)
+    if rng.random() < 0.25:
+        # many sensitive subnets (6-9) behind one or two gateways that are
+        # not sensitive themselves: the routes to them share the gateways
+        k = rng.randint(6, 9)
+        gates = rng.choice([1, 1, 2])
+        nsub = gates + k + rng.randint(0, 1)
+        N = nsub + 1
+        topo = [[1 if i == j else 0 for j in range(N)] for i in range(N)]
+        sizes = [1] * nsub
+        addrs = [(s + 1, 0) for s in range(nsub)]
+        topo[0][1] = topo[1][0] = 1
+        if gates == 2:
+            topo[1][2] = topo[2][1] = 1
+        sens = []
+        for j in range(k):
+            s = gates + 1 + j
+            g = rng.randint(1, gates)
+            topo[g][s] = topo[s][g] = 1
+            sens.append((s, 0))
+        if nsub > gates + k:
+            a = rng.randint(1, nsub - 1)
+            topo[a][nsub] = topo[nsub][a] = 1
+        acc.count("hop_clause_6plus_sensitive_subnets_behind_gateways")
+        return _hop_family_build(acc, rng, nsub, N, sizes, addrs, sens, topo)
     for b in range(2, N):
         a = rng.randint(1, b - 1) if rng.random() < 0.8 else max(1, b - 1)
         topo[a][b] = topo[b][a] = 1
